@@ -344,8 +344,9 @@ fn literal_spellings_part() -> Acc {
     let lits: Vec<(&str, Value)> = vec![
         ("1e2", json!(100.0)), ("1E2", json!(100.0)), ("1e+2", json!(100.0)), ("1.0e2", json!(100.0)), ("100.0", json!(100.0)), ("10e1", json!(100.0)), ("1e0", json!(1.0)), ("-5e1", json!(-50.0)),
         ("1.5", json!(1.5)), ("15e-1", json!(1.5)), ("100", json!(100)), ("1", json!(1)), ("-50", json!(-50)), ("0", json!(0)), ("0.0", json!(0.0)), ("2e3", json!(2000.0)),
+        ("1.0000000000000002", json!(1.0000000000000002)), ("0.9999999999999999", json!(0.9999999999999999)), ("1.0", json!(1.0)),
     ];
-    let lists: Vec<Value> = vec![json!([100.0]), json!([7.5, 100.0]), json!([1.0]), json!([-50.0, 2.5]), json!([1.5]), json!([100]), json!([1, -50]), json!([]), json!([7.5]), json!([2000.0, 0.5]), json!([0.0]), json!([0]), json!(["100", "1e2"])];
+    let lists: Vec<Value> = vec![json!([100.0]), json!([7.5, 100.0]), json!([1.0]), json!([-50.0, 2.5]), json!([1.5]), json!([100]), json!([1, -50]), json!([]), json!([7.5]), json!([2000.0, 0.5]), json!([0.0]), json!([0]), json!(["100", "1e2"]), json!([1.0000000000000002]), json!([0.9999999999999999, 2.5]), json!([1.0000000000000004])];
     let mut acc = Acc::new();
     for (lit, val) in &lits {
         let same_math = |e: &Value| match (e.as_f64(), val.as_f64()) {
